@@ -73,6 +73,9 @@ Init ==
 Next == UNCHANGED vars
 Spec == Init /\ [][Next]_vars
 
+\* the implementation's choice among the open details of the join is one the judging relation admits
+InvModelAdmitted ==
+    Mode = "update" => UpdateOk(c.tile, Updated(c.tile, WithId(c.rows, c.o.include_id), c.o), WithId(c.rows, c.o.include_id), c.o)
 InvUpdateTouchesOnlyProps ==
     Mode = "update" => OnlyPropsChanged(c.tile, Updated(c.tile, WithId(c.rows, c.o.include_id), c.o), c.o)
 =============================================================================
